@@ -491,7 +491,11 @@ class Extractor:
             self.out.emit('    ' + ident_txt, 'repo', name, 'rustc-expanded:src/impls.rs', None)
             if alias and selfty != 'PhantomData<T>':
                 self.out.emit('    closed spec fn spec_info() -> Type<MetaForm> { <%s as TypeInfo>::spec_info() }' % alias, 'tmpl', name)
-                self.out.emit('    ' + global_rules(fn_txt, 'src/impls.rs', 0, self.log, keep_derive=False), 'repo', name + '::type_info', 'rustc-expanded:src/impls.rs', None)
+                ftxt = global_rules(fn_txt, 'src/impls.rs', 0, self.log, keep_derive=False)
+                if self.canary:
+                    bi = ftxt.index('{')
+                    ftxt = ftxt[:bi + 1] + '\n proof { assert(false); } // CANARY\n' + ftxt[bi + 1:]
+                self.out.emit('    ' + ftxt, 'repo', name + '::type_info', 'rustc-expanded:src/impls.rs', None)
                 self.obligation_items.append(name + '::type_info')
                 self.log.items.append(dict(kind='fn', name=name + '::type_info', file='src/impls.rs (expanded)', line=None, external=False,
                                            declared_only=False, ghost_lines=0, sha=hashlib.sha1(norm(fn_txt).encode()).hexdigest()[:12]))
@@ -783,7 +787,7 @@ class Extractor:
             edits = [e for e in edits if e[0] <= body_open]
             edits.append((body_open, close + 1 - body_open, '{ unimplemented!() }', False))
         # apply
-        edits.sort(key=lambda e: (e[0], e[4] if len(e) > 4 else 1))
+        edits.sort(key=lambda e: (e[0], 1 if e[1] > 0 else 0, e[4] if len(e) > 4 else 1))
         # check overlaps
         res, cur = [], 0
         for pos, dl, ins, ghost in [e[:4] for e in edits]:
